@@ -184,6 +184,12 @@ def _e_biv_fit(spec, rs, variant):
 def _e_biv_queries(spec, rs, variant):
     m = _fitted_biv(spec, rs)
     X = mat(rs, 7, 2, variant, unit=True)
+    if spec.get('edges', True):
+        # boundary points of the unit square in some rows (exact 0 and 1 margins)
+        X[0, 0] = 0.0
+        X[1, 1] = 1.0
+        X[2, 0], X[2, 1] = 0.0, 1.0
+        X[3, 1] = 0.0
 
     def call(A):
         return [m.probability_density(A), m.cumulative_distribution(A), m.partial_derivative(A),
@@ -390,7 +396,7 @@ def _e_viz1d(spec, rs, variant):
 def _rand_spec(rng):
     return {'cls': rng.choice(UNI), 'biv': rng.choice(zoo.BIV_FAMILIES),
             'vine_type': rng.choice(zoo.VINE_TYPES), 'kde': rng.random() < 0.4,
-            'generic': rng.random() < 0.5,
+            'generic': rng.random() < 0.5, 'edges': rng.random() < 0.6,
             'dataset': rng.choice(['sample_bivariate_age_income', 'sample_trivariate_xyz',
                                    'sample_univariate_bimodal', 'sample_univariates',
                                    'sample_univariate_degenerate']),
@@ -497,7 +503,14 @@ def execute(run):
                 if o[0] == 'exc' and 'read-only' in str(o[1]):
                     ctx.probes['readonly_diagnostic_tripped:' + name] += 1
                 ctx.probes['readonly_diagnostic_run'] += 1
-    st = '|'.join([name, variant, oc[0]])
+    who = ''
+    if name.startswith('uni.'):
+        who = zoo.short(run['spec'].get('cls', ''))
+    elif name.startswith('biv.') or name == 'select_copula':
+        who = zoo.short(run['spec'].get('biv', ''))
+    elif name.startswith('vine.'):
+        who = run['spec'].get('vine_type', '')
+    st = '|'.join([name, who, variant, oc[0]])
     ctx.states.add(st)
     ctx.shape.append(st)
     ctx.event(name, variant, oc, outs[0][1] if outs[0][0] == 'ok' else None)
